@@ -155,7 +155,16 @@ pub fn c04(opts: &Opts) -> Report {
     run_parallel(opts, "C04",
         "random segment lists (0-10 segments: literals over all Unicode incl. $, }, backslashes; ${...} shell text; sections, repeated sections and sections differing in one argument, single-split sections) x inputs; format(whole) is compared with the concatenation of format({S}) through the public API, with the scanner's expected section list, and with the model; non-trivial when the template has >= 2 sections or >= 1 literal; distinct by (template, input)",
         opts.cases(4_000, 150_000), &|ctx, i| {
-            let segs = segments(&mut ctx.rng, 10);
+            let mut segs = segments(&mut ctx.rng, 10);
+            // every 20th template: a long literal whose multi-byte characters sit on every plausible preview limit, next to a block
+            let long_lit = i % 20 == 9;
+            if long_lit {
+                let k = (i / 20) as usize; let c = ['é', 'α', '日', '😀'][k % 4];
+                let lit = format!("{}{}", "a".repeat(10 + (k / 4) % 12), c.to_string().repeat(14));
+                if !matches!(segs.first(), Some(Seg::Lit(_))) { segs.insert(0, Seg::Lit(lit.clone())); }
+                if !matches!(segs.last(), Some(Seg::Lit(_))) { segs.push(Seg::Sec(vec![Op::Upper])); segs.push(Seg::Lit(lit)); }
+                ctx.rep.bump("long_multibyte_literals");
+            }
             let (text, secs) = assemble(&segs);
             let all_ops: Vec<Op> = secs.iter().filter_map(|s| if let Section::Sec(o) = s { Some(o.clone()) } else { None }).flatten().collect();
             let x = gens::input_for(&mut ctx.rng, &all_ops);
@@ -192,6 +201,16 @@ pub fn c04(opts: &Opts) -> Report {
                      vec![("template", text.clone()), ("input", x.clone()), ("observed", whole.show()), ("expected", expected.show()), ("theorem", "C04_compose".into())]);
                 return;
             }
+            // literals verbatim and sections as alone, with tracing switched on as well
+            if long_lit || i % 8 == 5 {
+                let traced = real::format(&tpl.clone().with_debug(true), &x);
+                ctx.rep.bump("traced_compositions");
+                if traced != expected {
+                    viol(ctx, "property", format!("C04: with tracing on, format({text:?}, {x:?}) = {} but its parts give {}", traced.show(), expected.show()),
+                         vec![("template", text.clone()), ("input", x.clone()), ("debug", "true".into()), ("observed", traced.show()), ("expected", expected.show()), ("theorem", "C04_compose / C10_transparent".into())]);
+                    return;
+                }
+            }
             let (mi, ms) = model_format(ctx, false, &secs, &x);
             if mi != whole || ms != whole {
                 viol(ctx, if ms != whole { "property" } else { "correspondence" }, format!("C04: format({text:?}, {x:?}) = {} but model impl {} / spec {}", whole.show(), mi.show(), ms.show()),
@@ -218,10 +237,40 @@ pub fn c10(opts: &Opts) -> Report {
                 if ctx.rng.chance(1, 3) { v.push(Seg::Lit(" ".repeat(1 + ctx.rng.below(3)))); }
                 v
             };
+            // a pattern that does not compile, in a step the run never reaches or reaches only after another failure
+            let unreached = i % 20 == 13;
+            let segs = if unreached {
+                ctx.rep.bump("invalid_pattern_in_unreached_step");
+                let all = || Op::Split(",".into(), Range::Range(None, None, false));
+                let pool: Vec<Vec<Op>> = vec![
+                    vec![all(), Op::Filter("zzz".into()), Op::Map(vec![Op::Filter("[".into())])],
+                    vec![all(), Op::Upper, Op::Filter("[".into())],
+                    vec![all(), Op::RegexExtract("[".into(), None)],
+                    vec![Op::Split(",".into(), Range::Range(Some(5), None, false)), Op::Map(vec![Op::RegexExtract("(".into(), None)])],
+                    vec![all(), Op::Map(vec![Op::Upper]), Op::Slice(Range::Range(Some(7), None, false)), Op::Map(vec![Op::Replace("(".into(), "x".into(), "g".into())])],
+                    vec![all(), Op::FilterNot(".".into()), Op::Map(vec![Op::FilterNot("a{2,1}".into())]), Op::Join("-".into())],
+                    vec![Op::Sort(SDir::Asc), Op::Filter("(".into())],
+                    // a one-item list is a list: what follows a slice with a bare index sees the kind the documentation says
+                    vec![all(), Op::Slice(Range::Index(1)), Op::Upper],
+                    vec![all(), Op::Slice(Range::Index(-1)), Op::Map(vec![Op::Upper])],
+                    vec![all(), Op::Slice(Range::Index(0)), Op::Sort(SDir::Desc), Op::Join("+".into())],
+                ];
+                // two sections that both fail, with different messages: the first failure is the one reported
+                let multi: Vec<Vec<Seg>> = vec![
+                    vec![Seg::Sec(vec![Op::Sort(SDir::Asc)]), Seg::Lit(" / ".into()), Seg::Sec(vec![Op::Unique])],
+                    vec![Seg::Lit("first ".into()), Seg::Sec(vec![all(), Op::Upper]), Seg::Lit(" then ".into()), Seg::Sec(vec![Op::Filter("[".into())]), Seg::Lit(" end".into())],
+                    vec![Seg::Sec(vec![Op::Filter("(".into())]), Seg::Sec(vec![Op::Filter(")".into())]), Seg::Sec(vec![Op::Join("-".into()), Op::Sort(SDir::Desc)])],
+                ];
+                let k = (i / 20) as usize;
+                let n = pool.len() + multi.len();
+                let mut v = if k % n < pool.len() { vec![Seg::Sec(pool[k % n].clone())] } else { multi[k % n - pool.len()].clone() };
+                if (k / n) % 2 == 1 { v.insert(0, Seg::Lit("p: ".into())); }
+                v
+            } else { segs };
             let (text, secs) = assemble(&segs);
             if secs.is_empty() { return; }
             let all_ops: Vec<Op> = secs.iter().filter_map(|s| if let Section::Sec(o) = s { Some(o.clone()) } else { None }).flatten().collect();
-            let x = if ctx.rng.chance(2, 3) { straddle(&mut ctx.rng) } else { gens::input_for(&mut ctx.rng, &all_ops) };
+            let x = if unreached { "a,b,c".to_string() } else if ctx.rng.chance(2, 3) { straddle(&mut ctx.rng) } else { gens::input_for(&mut ctx.rng, &all_ops) };
             ctx.rep.eval();
             let big = x.len() > 40 || secs.iter().any(|s| matches!(s, Section::Lit(l) if l.len() > 20));
             let off = match real::parse_with_debug(&text, Some(false)) { real::Parsed::Ok(t) => real::format(&t, &x), real::Parsed::Err(_) => Out::Err, real::Parsed::Panic => Out::Panic };
@@ -585,6 +634,9 @@ pub fn c05(opts: &Opts) -> Report {
                     // one multi-byte fill character at narrow and wide widths, in whatever order the history brings them
                     vec![Seg::Sec(vec![Op::Pad(6, '█', PDir::Left)])], vec![Seg::Sec(vec![Op::Pad(12, '█', PDir::Left)])], vec![Seg::Sec(vec![Op::Pad(41, '█', PDir::Both)])],
                     vec![Seg::Sec(vec![Op::Pad(5, 'é', PDir::Right)])], vec![Seg::Sec(vec![Op::Pad(30, 'é', PDir::Right)])], vec![Seg::Sec(vec![Op::Pad(9, '😀', PDir::Left)])], vec![Seg::Sec(vec![Op::Pad(33, '😀', PDir::Both)])],
+                    // two sections that begin with the same split; the later one ends in a list
+                    vec![Seg::Sec(vec![Op::Split(",".into(), Range::Range(None, None, false)), Op::Sort(SDir::Asc)]), Seg::Lit(" / ".into()), Seg::Sec(vec![Op::Split(",".into(), Range::Range(None, None, false)), Op::Map(vec![Op::Upper])])],
+                    vec![Seg::Sec(vec![Op::Split(";".into(), Range::Range(None, None, false)), Op::Join("+".into())]), Seg::Sec(vec![Op::Split(";".into(), Range::Range(None, None, false)), Op::Unique])],
                     // three and four general sections with literals in between (both entry points are used on one object below)
                     vec![Seg::Sec(vec![Op::Upper]), Seg::Lit(" ".into()), Seg::Sec(vec![Op::Lower]), Seg::Lit(" ".into()), Seg::Sec(vec![Op::Trim(String::new(), TDir::Both)])],
                     vec![Seg::Lit("a=".into()), Seg::Sec(vec![Op::Reverse]), Seg::Lit(" b=".into()), Seg::Sec(vec![Op::Upper]), Seg::Lit(" c=".into()), Seg::Sec(vec![Op::Append("!".into())]), Seg::Lit(" d=".into()), Seg::Sec(vec![Op::Lower])],
@@ -620,6 +672,33 @@ pub fn c05(opts: &Opts) -> Report {
                         if got != want || g2 != w2 { viol(ctx, "property", format!("C05: call {rep} on a {len}-byte input with {parts} part(s): split|join {} / last part {}", trunc(&got.show()), trunc(&g2.show())), vec![("template", "{split:,:..|join:+}".into()), ("input_description", format!("'ab,' x {} + 'z' up to {len} bytes", parts - 1)), ("history_seed", format!("{}:{}", opts.seed, i)), ("theorem", "C05_format_history".into())]); return; }
                     }
                 } }
+            }
+            if i % 10 == 7 {
+                // scripted two- and three-step histories on cold caches: each later call meets what an earlier one left behind
+                let scenarios: Vec<Vec<(&str, &str)>> = vec![
+                    vec![("{split: :..|join:,}", "k1,k2 k3"), ("{split:,:..|map:{upper}|join:-}", "k1,k2,k3"), ("{split:,:1}", "k1,k2,k3")],
+                    vec![("{split:,:1}", "p,q,"), ("{split:,:..}", "p,q,"), ("{split:,:-1}", "p,q,"), ("{split:,:..|join:;}", "p,q,")],
+                    vec![("{split:;:0}", "x;"), ("{split:;:..|join:+}", "x;"), ("{split:;:-1}", "x;")],
+                    vec![("{split:,:0}", COLLIDE_A), ("{split:,:0}", COLLIDE_B), ("{split:,:..|join:+}", COLLIDE_A), ("{split:,:..|join:+}", COLLIDE_B)],
+                    vec![("{split:,:..|join:+}", COLLIDE_B), ("{split:,:..|join:+}", COLLIDE_A), ("{split:,:1}", COLLIDE_B), ("{split:,:1}", COLLIDE_A)],
+                    vec![("{split:,:..|sort} / {split:,:..|map:{upper}}", "pear,apple,fig"), ("{split:,:..|map:{upper}} / {split:,:..|sort:desc}", "pear,apple,fig")],
+                    vec![("{split:,:..|join: }", "a b,c"), ("{split: :..|join:,}", "a b c"), ("{split: :1}", "a b c")],
+                    vec![("{replace:s/o/0/}", "foo boo"), ("{replace:s/o/0/g}", "foo boo"), ("{replace:s/O/0/i}", "foo boo"), ("{replace:s/o/0/}", "foo boo")],
+                ];
+                for (sn, sc) in scenarios.iter().enumerate() {
+                    hooks::clear_caches(); ctx.drv.request("CLEAR");
+                    for (step, (text, x)) in sc.iter().enumerate() {
+                        let (got, secs) = match real::parse(text) { real::Parsed::Ok(t) => (real::format(&t, x), sections_from_real(&t)), _ => (Out::Err, vec![]) };
+                        let (_, spec) = model_format(ctx, false, &secs, x);
+                        ctx.rep.bump("calls"); ctx.rep.bump("scripted_history_calls");
+                        if got != spec {
+                            viol(ctx, "property", format!("C05: scripted history {sn}, call {step}: after {:?}, format({text:?}, {x:?}) = {} but alone it is {}", &sc[..step], got.show(), spec.show()),
+                                 vec![("template", text.to_string()), ("input", x.to_string()), ("history", format!("{:?}", &sc[..=step])), ("observed", got.show()), ("expected", spec.show()), ("theorem", "C05_format_history".into())]);
+                            return;
+                        }
+                    }
+                }
+                hooks::clear_caches(); ctx.drv.request("CLEAR");
             }
             if i % 10 == 3 {
                 // one fill character after another, each at a narrow width first and at growing and shrinking widths afterwards
